@@ -169,6 +169,12 @@ def run(chk):
         a = rng.getrandbits(bits) * rng.choice((1, -1))
         b = a + rng.choice((0, 1, -1, rng.getrandbits(rng.randint(1, 54))))
         pairs.append((a, b))
+    # a safe value against wide values OUTSIDE the safe range, on both sides (the mixed comparison impls)
+    edges = [2 ** 53 - 1, 2 ** 53, 2 ** 53 + 1, 2 ** 62, 2 ** 63 - 1, 2 ** 64 - 1, -(2 ** 53 - 1), -(2 ** 53), -(2 ** 53) - 1, -(2 ** 62), -(2 ** 63)]
+    for _ in range(n // 4):
+        a = rng.getrandbits(rng.randint(0, 53)) * rng.choice((1, -1))
+        pairs.append((a, rng.choice(edges) + rng.choice((0, 0, 1, -1))))
+    pairs = [(a, b) for a, b in pairs if -(2 ** 63) <= b < 2 ** 64]
     jobs = [{"id": i, "v": str(v)} for i, v in enumerate(vals)] + \
            [{"id": len(vals) + i, "v": str(a), "w": str(b)} for i, (a, b) in enumerate(pairs)]
     results = common.run_driver("safeint", jobs)
@@ -181,6 +187,12 @@ def run(chk):
             if k in r:
                 events.append({"ev": "cmp", "neg": a < 0, "l": limbs(a), "w_neg": b < 0, "w_l": limbs(b), "cmp": r[k],
                                "eq": r[k[:3] + "_eq"]})
+                meta.append((k, a, b))
+        for k in ("u53_cmpw", "i54_cmpw"):
+            if k in r and r[k] is not None:
+                p3 = k[:3]
+                events.append({"ev": "cmpw", "neg": a < 0, "l": limbs(a), "w_neg": b < 0, "w_l": limbs(b), "cmp": r[k], "eq": r[p3 + "_eqw"],
+                               "lt": r[p3 + "_ltw"], "ge": r[p3 + "_gew"]})
                 meta.append((k, a, b))
     total_bad = 0
     base = 0
